@@ -19,7 +19,12 @@ def coq_case(c):
     others = [coq_span(s, e) for k, s, e in c["spans"] if k not in ("tok", "lexerr")]
     out = "[" + ";".join("(%d,%s)" % (n, CLS[k]) for n, k in (c.get("out") or [])) + "]"
     gout = [coq_span(s, e) for s, e in (c.get("gout") or [])]
-    return "TC %s [%s] [%s] [%s] %s [%s]" % (coq_segs(c["segs"]), ";".join(toks), ";".join(errs), ";".join(others), out, ";".join(gout))
+    def parts(p, kids):
+        return "(%s,[%s])" % (coq_span(p[0], p[1]), ";".join(coq_span(k[0], k[1]) for k in kids))
+    merges = [parts(p, kids) for kind, p, kids in (c.get("merges") or [])]
+    contains = [parts(p, kids) for p, kids in (c.get("contains") or [])]
+    return "TC %s [%s] [%s] [%s] %s [%s] [%s] [%s]" % (coq_segs(c["segs"]), ";".join(toks), ";".join(errs), ";".join(others), out, ";".join(gout),
+                                                    ";".join(merges), ";".join(contains))
 
 
 def vkey(cause, key, inp):
@@ -34,7 +39,9 @@ def run(r):
         "the tokeniser's control flow is abstracted to consume/rewind/emit/error actions over the positions the lexer has been at (Model/Lex.v header lists every span-producing site of lex.rs; "
         "the split-identifier path is the action macro split_actions); token recognition itself is not modelled; the index discipline `disc` is a premise justified by reading lex.rs and observed by the tie (token order)",
         "the segmentation of the input (unicode-segmentation's extended grapheme clusters + the prefix split of Lexer::new / `segments`) is re-derived in the harness with the same crate and exported to Coq",
-        "parser / compiler / language-server spans are not modelled beyond merge and end_to (just_start/just_end are defined, not proved): their validity is checked functionally (tie in Coq + search in Rust) against loc_of_prefix",
+        "parser: span merging is modelled (merge over the derived Ord of Loc, end_to, merge_all, the span tree) and proved sound for lists and trees of parts; the tie recomputes merge_all in Coq on the exported parts of every strand and modified word "
+        "(parse.rs:1127-1131, 1198-1202) and checks containment for strands, modified and subscripted words; which parts a node merges elsewhere (modules = opening delimiter only, arrays/packs without their leading down-arrow, bindings ...) is span CHOICE and not carried; "
+        "just_start/just_end are defined, not proved; all other parser / compiler / language-server spans are checked functionally (tie in Coq + search in Rust) against loc_of_prefix",
         "formatter: end_loc, its compositionality, the running location of `struct Output` over push/pop (not remove_spaces) and the size guard's error span are modelled and proved; "
         "the later shift of glyph-map entries for aligned end-of-line comments and which fragments are pushed are only checked (push_ok on the final output text, tie + search)",
         "AST spans are collected from the serde serialisation of the AST (every CodeSpan field is serialised); compiler spans with a source other than the input (macros, builtins) are skipped",
@@ -103,6 +110,8 @@ def run(r):
     r.coverage["tie"] = {"kind": "C", "cases": len(cases), "spans_checked": nspans, "by_span_kind": kinds, "by_input_category": cats,
                          "coq_failing_cases": len(coq_fail), "glyph_map_output_entries_checked_in_coq": sum(len(c.get("gout") or []) for c in cases),
                          "output_comment_eval_cases": sum(1 for c in cases if c["cat"] == "output-comment-eval"),
+                         "strand_and_modified_spans_recomputed_by_merge_all_in_coq": sum(len(c.get("merges") or []) for c in cases),
+                         "containment_cases_checked_in_coq": sum(len(c.get("contains") or []) for c in cases),
                          "multi_line_fragments": sum(1 for c in cases for s, e in (c.get("gout") or []) if e[2] > s[2]), "monitor_vs_model_disagreements": len(disagree),
                          "implementation_violations": impl_viol, "max_segments": max([len(c["segs"]) for c in cases] or [0])}
     for c in cases[:2] + cases[-2:]:
@@ -137,4 +146,4 @@ def run(r):
     r.coverage["distinct_nontrivial"] = len(set(c["src"] for c in cases if len(c["spans"]) >= 3))
     r.coverage["rule"] = ("inputs: random token soup over uiua's glyphs, ASCII primitive names and a fixed list of hard pieces (escapes, combining sequences, CR/CRLF, "
                           "multi-line strings, output comments (unevaluated soup and EVALUATED `##` at line start / end of line, indent 0-3 in modules and multi-line functions, values scalar/list/rank-2/rank-3/boxed), unterminated constructs, subscripts, `?` chains), mutated lines of /repo/tests and /repo/examples, "
-                          "preceded by the 22 former failing inputs of the repaired defect classes (escape + split identifier, combining mark, end-of-line-comment glyph map, non-ASCII-whitespace identifier before an end-of-line comment; also the first tie cases), by 9 fixed inputs with evaluated output comments (incl. several-line values on indented lines) and by a fixed regression corpus of 16 huge inputs around the 16-bit limits (9 that the guard must reject with the ordinary too-long error, 5 just inside the guard that must lex cleanly, 2 for the formatter output side: a 65535-character formatted line must be exact, a 65536-character one may only be clamped, never wrapped); every 4th search input (and every evaluated-output-comment input) also goes through the compiler, the language server and the formatter; checked per input: every token / lex error / AST / parse error+diagnostic / compile error+diagnostic / highlight / glyph-map source span against the position recomputed from the byte prefix, token order and coverage, both output-side positions of every glyph-map entry against the formatted text, slicing under catch; non-trivial = at least 3 reported spans")
+                          "preceded by the 22 former failing inputs of the repaired defect classes (escape + split identifier, combining mark, end-of-line-comment glyph map, non-ASCII-whitespace identifier before an end-of-line comment; also the first tie cases), by 9 fixed inputs with evaluated output comments (incl. several-line values on indented lines) and by a fixed regression corpus of 16 huge inputs around the 16-bit limits (9 that the guard must reject with the ordinary too-long error, 5 just inside the guard that must lex cleanly, 2 for the formatter output side: a 65535-character formatted line must be exact, a 65536-character one may only be clamped, never wrapped); every 4th search input (and every evaluated-output-comment input) also goes through the compiler, the language server and the formatter; checked per input: every token / lex error / AST / parse error+diagnostic / compile error+diagnostic / highlight / glyph-map source span against the position recomputed from the byte prefix, token order and coverage, both output-side positions of every glyph-map entry against the formatted text, the span of every strand / modified word against the merge of its parts and containment of the parts, slicing under catch; non-trivial = at least 3 reported spans")
